@@ -548,8 +548,13 @@ func (i *interpreter) callSSA(caller *frame, callpos token.Pos, fn *ssa.Function
 			return in(fr, args)
 		}
 		if fn.Blocks == nil {
+			i.buildFor(fn)
+		}
+		if fn.Blocks == nil {
 			abandon("no code for function %s", name)
 		}
+	} else if fn.Blocks == nil {
+		i.buildFor(fn)
 	}
 	if fn.TypeParams().Len() > 0 && len(fn.TypeArgs()) == 0 {
 		abandon("uninstantiated generic function %s", fn)
@@ -697,6 +702,7 @@ func (i *interpreter) lookupFunc(pkgPath, name string) *ssa.Function {
 	}
 	var f *ssa.Function
 	if pkg := i.prog.ImportedPackage(pkgPath); pkg != nil {
+		pkg.Build()
 		f = pkg.Func(name)
 	}
 	i.funcCache[key] = f
@@ -718,5 +724,21 @@ func (i *interpreter) initPackages(roots []*ssa.Package) {
 				i.callSSA(nil, token.NoPos, init, nil, nil)
 			}()
 		}
+	}
+}
+
+// buildFor builds the SSA bodies of fn's package on demand (packages are built lazily).
+func (i *interpreter) buildFor(fn *ssa.Function) {
+	if fn.Pkg != nil {
+		fn.Pkg.Build()
+		return
+	}
+	if o := fn.Object(); o != nil && o.Pkg() != nil {
+		if p := i.prog.Package(o.Pkg()); p != nil {
+			p.Build()
+		}
+	}
+	if fn.Parent() != nil {
+		i.buildFor(fn.Parent())
 	}
 }
